@@ -291,10 +291,65 @@ def _one(args):
         return name, {}, 'crash: ' + traceback.format_exc()[-800:]
 
 
+def layout_cases():
+    """the jets evaluate the modules at single points; on arrays the modules must not depend on how the coordinate arrays are laid
+    out in memory: C-ordered vs Fortran-ordered (transposed simulation data) vs non-contiguous views vs integer-valued coordinates
+    in integer arrays"""
+    import inspect
+    import warnings
+    bad, n = [], 0
+    with warnings.catch_warnings():
+        warnings.simplefilter('ignore')
+        for name in MODULES + ['ICPertFLRW']:
+            real = importlib.import_module(f'aurel.solutions.{name}')
+            (t0, t1), (x0, x1) = DOMAIN.get(name, ((1.0, 2.0), (-1.0, 1.0)))
+            t = 0.5 * (t0 + t1)
+            ax = [np.linspace(x0 + 0.1 * (x1 - x0) * (k + 1), x1 - 0.07 * (x1 - x0) * (k + 1), 5 + k) for k in range(3)]
+            X = np.meshgrid(*ax, indexing='ij')
+            lay = {'C': [np.ascontiguousarray(a) for a in X], 'F': [np.asfortranarray(a) for a in X],
+                   'T': [np.ascontiguousarray(a.T).T for a in X], 'S': [np.repeat(a, 2, axis=-1)[..., ::2] for a in X]}
+            for fn, f in list(vars(real).items()):
+                if not inspect.isfunction(f) or f.__module__ != real.__name__ or fn.startswith('_'):
+                    continue
+                try:
+                    pars = list(inspect.signature(f).parameters)
+                except (TypeError, ValueError):
+                    continue
+                if not ({'x', 'y', 'z'} & set(pars)) or any(p_ not in ('t', 'x', 'y', 'z') and inspect.signature(f).parameters[p_].default is inspect._empty for p_ in pars):
+                    continue
+                out = {}
+                for how, (x, y, z) in lay.items():
+                    kw = dict(t=t, x=x, y=y, z=z)
+                    try:
+                        out[how] = np.asarray(f(**{p_: kw[p_] for p_ in pars if p_ in kw}), dtype=complex)
+                    except Exception as e:
+                        out[how] = RuntimeError(f'{type(e).__name__}: {str(e)[:60]}')
+                if isinstance(out['C'], RuntimeError):
+                    continue                      # not callable on arrays in this way at all (analytical-only helpers)
+                for how, what in (('F', 'Fortran-ordered'), ('T', 'transposed'), ('S', 'non-contiguous')):
+                    n += 1
+                    if isinstance(out[how], RuntimeError):
+                        bad.append(f'{name}.{fn}: raises {out[how]} for {what} coordinate arrays, returns for C-ordered ones')
+                    elif out[how].shape != out['C'].shape or not np.allclose(out[how], out['C'], rtol=1e-10, atol=1e-12, equal_nan=True):
+                        bad.append(f'{name}.{fn}: {what} coordinate arrays give a different value than the same points C-ordered '
+                                   f'(max |difference| {np.nanmax(np.abs(out[how] - out["C"])) if out[how].shape == out["C"].shape else "shape"})')
+    return bad, n
+
+
+def layout_obligation(R):
+    t0 = time.time()
+    bad, n = layout_cases()
+    R.bounded.append(dict(function='aurel.solutions.* on arrays', bound='one 5x6x7 block of points per module; C / Fortran / transposed / strided coordinate arrays'))
+    R.ob('solutions.*:the value does not depend on the memory layout of the coordinate arrays', 'gammadown3', 'refuted' if bad else ('bounded-ok' if n else 'undecided'),
+         'bounded-native', time.time() - t0, '; '.join(bad[:4]) or f'{n} comparisons', bad[:6] or None, bounded='one block of points, 3 layouts',
+         replay=lambda o: (lambda b: (bool(b[0]), '; '.join(b[0][:4]) or 'no difference'))(layout_cases()))
+
+
 def run(R):
     from engine.canary import run_canaries
     run_canaries(R, ('symx',))
     import multiprocessing as mp
+    layout_obligation(R)
     R.assume('A1', 'A4', 'A5')
     R.trust('float64 evaluation of sin, sinh, exp, log, fractional powers, scipy.special.hyp2f1 and of sympy expressions at 40 digits')
     npts = 8 if R.tier == 'quick' else 32
